@@ -23,6 +23,7 @@ import (
 	"sort"
 	"strconv"
 	"strings"
+	"syscall"
 	"time"
 
 	bolt "go.etcd.io/bbolt"
@@ -511,6 +512,30 @@ func (r *runner) exec(line string) (cont bool) {
 		var n int64
 		var err error
 		size := tx.Size()
+		// optional last token: "wf" = copy with Tx.WriteFlag set (the file is re-opened by path), "wfswap" = additionally the
+		// path has meanwhile been re-pointed to a different database file (rename over the live file)
+		bmode := f[len(f)-1]
+		if strings.HasPrefix(bmode, "wf") {
+			tx.WriteFlag = syscall.O_SYNC
+			defer func() { tx.WriteFlag = 0 }()
+		}
+		if bmode == "wfswap" {
+			orig := r.path + ".orig"
+			if os.Rename(r.path, orig) == nil {
+				if decoy, e := bolt.Open(r.path, 0600, &bolt.Options{PageSize: r.ps}); e == nil {
+					_ = decoy.Update(func(dtx *bolt.Tx) error {
+						b, _ := dtx.CreateBucketIfNotExists([]byte("decoy"))
+						for i := 0; i < 300; i++ {
+							_ = b.Put([]byte(fmt.Sprintf("decoy%04d", i)), bytes.Repeat([]byte{0xdc}, 200))
+						}
+						return nil
+					})
+					decoy.Close()
+				}
+				restore := func() { _ = os.Rename(orig, r.path) }
+				defer restore()
+			}
+		}
 		if f[0] == "backupfile" {
 			err = tx.CopyFile(dst, 0600)
 			if st, e := os.Stat(dst); e == nil {
@@ -1007,6 +1032,8 @@ type genCfg struct {
 	reopen    bool
 	malformed bool
 	moves     bool
+	faults    bool // some commits fail at their first writes (physical rollback), without readers
+	selfmoves bool // also move a bucket into its own subtree (D4's domain), ending the history
 	backups   bool
 	surgery   bool
 }
@@ -1177,7 +1204,13 @@ func genHistory(r *rng, cfg genCfg, o openOpts) []string {
 					inside = dst[i] == p[i]
 				}
 				if inside {
-					continue // D4's domain: generated only by the dedicated known-finding probe
+					if !cfg.selfmoves || !r.chance(1, 2) {
+						continue
+					}
+					// D4's domain (known finding): the bucket is moved into its own subtree; the reference refuses it.
+					// Whatever the implementation did, the history ends here with a rollback.
+					L = append(L, fmt.Sprintf("x w move %s %s %s", pathStr(src), hex.EncodeToString([]byte(name)), pathStr(dst)), "rollback", "close")
+					return L
 				}
 				L = append(L, fmt.Sprintf("x w move %s %s %s", pathStr(src), hex.EncodeToString([]byte(name)), pathStr(dst)))
 				dn := work.at(dst)
@@ -1234,6 +1267,10 @@ func genHistory(r *rng, cfg genCfg, o openOpts) []string {
 		}
 		if r.chance(1, 8) {
 			L = append(L, "dump w", "rollback")
+		} else if cfg.faults && len(readers) == 0 && r.chance(1, 5) {
+			// a commit whose first or second write fails: nothing reaches the meta page, the transaction is rolled back
+			// physically (free list reloaded / rebuilt) and the history goes on from the previous state
+			L = append(L, "dump w", fmt.Sprintf("commitfail %d", r.intn(2)))
 		} else {
 			L = append(L, "dump w", "commit")
 			committed = work
@@ -1248,10 +1285,11 @@ func genHistory(r *rng, cfg genCfg, o openOpts) []string {
 			}
 			sort.Ints(ids)
 			id := ids[r.intn(len(ids))]
+			bmode := []string{"plain", "plain", "wf", "wfswap"}[r.intn(4)]
 			if r.chance(1, 4) {
-				L = append(L, fmt.Sprintf("backupfile r%d", id))
+				L = append(L, fmt.Sprintf("backupfile r%d %s", id, bmode))
 			} else {
-				L = append(L, fmt.Sprintf("backup r%d %d", id, []int{0, 1, 2, 5}[r.intn(4)]))
+				L = append(L, fmt.Sprintf("backup r%d %d %s", id, []int{0, 1, 2, 5}[r.intn(4)], bmode))
 			}
 		}
 		// every open reader is re-dumped after every writer event (C02)
